@@ -49,7 +49,8 @@ keep("c01-group-values", ["C01"], G, "        for k, v in self._vectors.items():
 
 # ---------------------------------------------------------------- C02 / C11 / C08 (buffer)
 brk("c02-consume-after-callback", "C02", "C02.CONSUME", BUF, "            self.data = self.data[end:]\n            self._cleanup_buffer()\n            callback(message)", "            callback(message)\n            self.data = self.data[end:]\n            self._cleanup_buffer()")
-brk("c02-end-plus-one", "C02", "C02.CONSUME", BUF, "            self.data = self.data[end:]", "            self.data = self.data[end + 1:]")
+brk("c02-end-plus-one-rejected", "C02", "C11.RECOVER", BUF, "            if not message and end is not None:\n                self.data = self.data[end:]", "            if not message and end is not None:\n                self.data = self.data[end + 1:]")
+brk("c02-end-plus-one", "C02", "C02.CONSUME", BUF, "            self.data = self.data[end:]\n            self._cleanup_buffer()\n            callback(message)", "            self.data = self.data[end + 1:]\n            self._cleanup_buffer()\n            callback(message)")
 brk("c02-rfind-discard", "C02", "C02.DISCARD", BUF, "        if last_tag_pos >= 0:\n            start = last_tag_pos", "        if last_tag_pos >= 0 and len(data) - last_tag_pos > 1:\n            start = last_tag_pos")
 brk("c02-max-not-min", "C02", "C02.DISCARD", BUF, "start = min(start, found_pos) if start is not None else found_pos", "start = max(start, found_pos) if start is not None else found_pos")
 brk("c02-utf8", "C02", "C02.DECODE", STCP, 'message.decode("latin1")', 'message.decode("utf-8")')
